@@ -204,6 +204,92 @@ Proof.
       destruct (Z.eqb (cid c1) (cid cm)) eqn:E; [reflexivity|]. exfalso. cbn [cid] in Em. apply Z.eqb_neq in E. congruence.
     + exfalso. destruct (find_cand_in A (cands s) (cid cm)) as [y Hy]; [apply in_map; exact Hcm|congruence].
 Qed.
+
+(* ---- Minneapolis, one seat: a DECLARED candidate ranked first by more than half of the ballots is elected at the first count
+        (an undeclared write-in is not: the ordinance excludes write-ins in round 2 whatever their support) ---- *)
+Definition DeclM (s : est) : Prop := forall c, In c (cands s) -> cid c = m -> cundecl c = false.
+
+Lemma sate_after_elect msg (s : est) : ExM s -> SatE (elect A cfg m msg false s).
+Proof.
+  intros He c' Hc' Em. unfold elect in Hc'. destruct (find_cand_in A (cands s) m He) as [c0 Ef]. rewrite Ef in Hc'.
+  rewrite (cands_log A cfg) in Hc'. unfold upd in Hc'. cbn [cands set_cands] in Hc'. destruct (in_upd_cand A _ _ _ c' Hc') as (c1 & Hc1 & ->).
+  destruct (Z.eqb (cid c1) m) eqn:E; [reflexivity|]. exfalso. cbn [cid] in Em. apply Z.eqb_neq in E. congruence.
+Qed.
+Lemma sate_elect i msg p (s : est) : SatE s -> SatE (elect A cfg i msg p s).
+Proof.
+  intros Hs c' Hc' Em. destruct (ewq_elect A cfg i msg p s) as [_ Hrel]. destruct (Hrel c' Hc') as (c & Hc & E1 & _ & E3).
+  destruct E3 as [E3|E3]; [rewrite E3; apply (Hs c Hc); congruence|exact E3].
+Qed.
+Lemma exm_elect i msg p (s : est) : ExM s -> ExM (elect A cfg i msg p s).
+Proof. intros He. unfold Majority.ExM. rewrite (ids_elect A cfg i msg p s). exact He. Qed.
+
+Lemma fold_elect_sate msg (L : list cand) : forall s : est, ExM s -> (exists x, In x L /\ cid x = m) ->
+  SatE (fold_left (fun s c => elect A cfg (cid c) msg false s) L s).
+Proof.
+  induction L as [|x L IH]; intros s He (y & Hy & Ey); [contradiction|]. cbn [fold_left].
+  destruct (Z.eq_dec (cid x) m) as [Ex|Nx].
+  - rewrite Ex. assert (H1: SatE (elect A cfg m msg false s)) by (apply sate_after_elect; exact He).
+    revert H1. generalize (elect A cfg m msg false s). clear. induction L as [|z L IH]; intros t Ht; cbn [fold_left]; [exact Ht|]. apply IH, sate_elect, Ht.
+  - apply IH; [apply exm_elect; exact He|]. destruct Hy as [<-|Hy]; [contradiction|]. exists y. split; assumption.
+Qed.
+
+Lemma start_undecl q (s : est) c' : In c' (cands (start_count A (Ok q) s)) -> exists c, In c (cands s) /\ cid c = cid c' /\ cundecl c = cundecl c'.
+Proof.
+  unfold start_count, initial_count. cbn [cands set_exhausted].
+  assert (G: forall (l : list (ballot A)) (t : est), In c' (cands (fold_left (fun s b => match top_rank A b with Some c => add_vote A c (bvote A b) s | None => set_crash s AttributeError end) l t)) ->
+             exists c, In c (cands t) /\ cid c = cid c' /\ cundecl c = cundecl c').
+  { induction l as [|b l IH]; intros t H; cbn [fold_left] in H; [exists c'; auto|]. destruct (IH _ H) as (c1 & Hc1 & E1 & E2).
+    destruct (top_rank A b) as [i|]; [|exists c1; auto]. unfold add_vote, upd in Hc1. cbn [cands set_cands] in Hc1.
+    destruct (in_upd_cand A _ _ _ c1 Hc1) as (c0 & Hc0 & ->). exists c0. split; [exact Hc0|]. destruct (Z.eqb (cid c0) i); cbn [cid cundecl with_vote] in *; auto. }
+  intros H. destruct (G _ _ H) as (c & Hc & E1 & E2). exists c. cbn [cands set_quota] in Hc. auto.
+Qed.
+
+Lemma mpls_one_seat (Qb Qc : est -> Prop) : 0 <= R (integer_droop_quota A cfg) ->
+  T3 (fun s => Pre A S ZL B s /\ (forall c, In c (cands s) -> cst c <> Elected) /\ HopM A m s /\ DeclM s /\
+               R (integer_droop_quota A cfg) <= stand A S ZL (ballots s) m)
+     (mpls A cfg) SatE Qb Qc.
+Proof.
+  intros Hq. unfold mpls.
+  set (HQD := fun s : est => NoDup (map (@cid A) (cands s)) /\ ExM s /\ SatHQ s /\ DeclM s).
+  eapply t_seq with (M := HQD).
+  { apply t_do_nc. intros s (P & Hne & Hm & Hd & Hst) Hc. unfold new_round in *. rewrite (crashed_log A cfg) in Hc.
+    assert (Hc': crashed (log_action A cfg TRound "New Round" (start_count A (Ok (integer_droop_quota A cfg)) s)) = false) by (rewrite (crashed_log A cfg); exact Hc).
+    destruct (begin_hq A S ZL cfg m B _ TRound "New Round" s P Hne Hm Hq Hst Hc') as (H1 & H2 & _ & H4).
+    rewrite (cands_log A cfg) in H1. unfold Majority.ExM in H4. rewrite (cands_log A cfg) in H4.
+    unfold HQD. rewrite (cands_log A cfg). cbn [cands set_round]. split; [exact H1|]. split; [exact H4|]. split.
+    - intros c Hcin Em. rewrite (cands_log A cfg) in Hcin. cbn [cands set_round] in Hcin. rewrite (quota_log' A cfg). cbn [quota set_round].
+      specialize (H2 c). rewrite (cands_log A cfg), (quota_log' A cfg) in H2. exact (H2 Hcin Em).
+    - intros c Hcin Em. rewrite (cands_log A cfg) in Hcin. cbn [cands set_round] in Hcin.
+      destruct (start_undecl _ s c Hcin) as (c0 & Hc0 & E1 & E2). rewrite <- E2. apply Hd; [exact Hc0|congruence]. }
+  eapply t_seq with (M := EE).
+  { eapply t_post; [|apply (t_while est (@crashed A) HQD EE)]; [intros s [H|[_ Hg]]; [exact H|discriminate]|].
+    eapply t_pre; [intros s [Hs _]; exact Hs|].
+    eapply t_seq with (M := HQD).
+    { apply t_do. intros s (Hnd & He & Hs & Hd). unfold HQD. rewrite (cands_log A cfg). cbn [cands set_surplus]. split; [exact Hnd|]. split; [exact He|]. split.
+      - intros c Hc Em. rewrite (cands_log A cfg) in Hc. rewrite (quota_log' A cfg). exact (Hs c Hc Em).
+      - intros c Hc Em. rewrite (cands_log A cfg) in Hc. exact (Hd c Hc Em). }
+    eapply t_seq with (M := fun _ => False); [|intros fuel s s' k []].
+    (* the candidate is at the threshold: the test succeeds and it is elected *)
+    assert (Hin: forall s, HQD s -> exists cm, In cm (hopeful_with_quota A true s) /\ cid cm = m).
+    { intros s (Hnd & He & Hs & Hd). pose proof He as He'. unfold Majority.ExM in He'. apply in_map_iff in He'. destruct He' as (cm & Eid & Hcm).
+      destruct (Hs cm Hcm Eid) as [Hh Hqm]. exists cm. split; [|exact Eid]. unfold hopeful_with_quota. apply filter_In. split.
+      - unfold by_vote. apply py_sorted_in. unfold hopefuls. apply filter_In. split; [exact Hcm|unfold in_state; rewrite Hh; reflexivity].
+      - rewrite (Hd cm Hcm Eid). cbn [andb negb]. unfold ge_quota. rewrite (r_gev_exact A S ZL Hex). apply Z.leb_le. exact Hqm. }
+    apply t_ite.
+    - eapply t_seq with (M := EE); [|apply t_break'; auto].
+      apply t_do. intros s [H _]. pose proof H as (Hnd & He & Hs & Hd). destruct (Hin s H) as (cm & Hcm & Eid).
+      pose proof (f_mpls_elect_threshold A cfg s s (R_refl A s) Hnd) as Hr.
+      split; [exact (nd_R A _ _ Hr Hnd)|split; [unfold Majority.ExM; rewrite <- (R_cids A _ _ Hr); exact He|]].
+      apply fold_elect_sate; [exact He|exists cm; split; assumption].
+    - apply t_skip'. intros s [H Hg]. destruct (Hin s H) as (cm & Hcm & _). rewrite Hseat in Hg. apply Z.leb_gt in Hg.
+      unfold nlen in Hg. destruct (hopeful_with_quota A true s); [contradiction|]. cbn [List.length] in Hg. lia. }
+  eapply t_seq with (M := EE).
+  { apply t_ite; [|apply t_skip'; intros s [H _]; exact H].
+    apply t_do. intros s [H _]. apply (ee_R s); [apply f_elect_all; [apply R_refl|exact (proj1 H)]|exact H]. }
+  apply (t_post est (@crashed A) EE _ EE SatE Qb Qc); [intros s H; exact (proj2 (proj2 H))|].
+  apply t_ite; [|apply t_skip'; intros s [H _]; exact H].
+  apply t_do. intros s [H _]. apply (ee_R s); [apply f_defeat_all; [apply R_refl|exact (proj1 H)]|exact H].
+Qed.
 End MC.
 
 Section MCCount.
@@ -279,6 +365,45 @@ Proof.
           assert (0 <= fold_right (fun mr acc => match snd mr with [] => 0 | _ :: _ => fst mr end + acc) 0 l) by (apply IH; intros m' r' H'; apply Hb; right; exact H').
           destruct (Hb mu r (or_introl eq_refl)) as [Hm _]. destruct r; lia. }
         assert (0 <= ballot_total pr * S / (1 + 1)) by (apply Z.div_pos; nia). lia.
+      + apply t_do. intros s0 Hs c Hc Em. rewrite (Status.cands_log A cfg) in Hc. exact (Hs c Hc Em). }
+  specialize (Ht fuel _ s k eq_refl He). destruct k; try contradiction. exact Ht.
+Qed.
+
+(* Minneapolis, one seat: a candidate who is not an undeclared write-in *)
+Theorem count_majority_mpls (pr : profile) m fuel s k : wf_profile pr -> cf_nballots cfg = ballot_total pr ->
+  (exists pc, In pc (pr_cands pr) /\ pc_cid pc = m /\ pc_withdrawn pc = false /\ pc_undeclared pc = false) ->
+  NoDup (map pc_cid (pr_cands pr)) ->
+  ballot_total pr < 2 * first_prefs pr m ->
+  exec (@crashed A) fuel (count_cmd A cfg RMpls) (init_state A cfg pr) = Some (s, k) -> k <> Abort ->
+  forall c, In c (cands s) -> cid c = m -> cst c = Elected.
+Proof.
+  intros Hwf Hnbt (pc & Hpc & Epc & Hwd & Hud) Hndp Hmaj He Hk.
+  pose proof (integer_quota_value A S ZL cfg) as Rq. rewrite Hseat, Hnbt in Rq.
+  assert (Hbt: 0 <= ballot_total pr).
+  { unfold ballot_total. clear -Hwf. destruct Hwf as [_ Hb]. induction (pr_ballots pr) as [|[mu r] l IH]; cbn [fold_right fst snd]; [lia|].
+    assert (0 <= fold_right (fun mr acc => match snd mr with [] => 0 | _ :: _ => fst mr end + acc) 0 l) by (apply IH; intros m' r' H'; apply Hb; right; exact H').
+    destruct (Hb mu r (or_introl eq_refl)) as [Hm _]. destruct r; lia. }
+  pose proof (S_pos A S ZL) as HS.
+  assert (Ht: triple (est A) (@crashed A) (fun s0 => s0 = init_state A cfg pr) (count_cmd A cfg RMpls)
+            (SatE A m) (fun _ => False) (fun _ => False)).
+  { unfold count_cmd. eapply t_seq with (M := fun s0 => Pre A S ZL (S * ballot_total pr) s0 /\ (forall c, In c (cands s0) -> cst c <> Elected) /\ HopM A m s0 /\
+                                                       DeclM A m s0 /\ R (integer_droop_quota A cfg) <= stand A S ZL (ballots s0) m).
+    - apply t_do. intros s0 ->. destruct (pre2_init A S ZL cfg Hex pr Hwf) as [P Hne]. destruct (init_state_shape A cfg pr) as (Ec & Eb & _).
+      split; [exact P|split; [exact Hne|split; [|split]]].
+      + exists (with_vote (init_cand A pc) (V0' A)). split; [|split; [exact Epc|cbn [cst with_vote init_cand]; rewrite Hwd; reflexivity]].
+        unfold zero_votes. cbn [cands set_cands]. rewrite Ec, map_map. apply in_map_iff. exists pc. split; [reflexivity|exact Hpc].
+      + intros c Hc Em. unfold zero_votes in Hc. cbn [cands set_cands] in Hc. rewrite Ec, map_map in Hc. apply in_map_iff in Hc. destruct Hc as (p0 & <- & Hp0).
+        cbn [cid cundecl with_vote init_cand] in *.
+        assert (p0 = pc).
+        { clear -Hndp Hp0 Hpc Em Epc. revert Hndp Hp0 Hpc. induction (pr_cands pr) as [|a l IH]; intros Hnd H0 H1; [contradiction|]. cbn [map] in Hnd. inversion Hnd as [|? ? Hn Hnd']; subst.
+          destruct H0 as [->|H0], H1 as [->|H1]; [reflexivity| | |exact (IH Hnd' H0 H1)]; exfalso; apply Hn; apply in_map_iff; [exists pc|exists p0]; split; try assumption; congruence. }
+        subst p0. exact Hud.
+      + unfold zero_votes. cbn [ballots set_cands]. rewrite Eb, (stand_mk A S ZL Hex pr m Hwf), Rq.
+        assert (Hd: ballot_total pr / (1 + 1) < first_prefs pr m) by (apply Z.div_lt_upper_bound; lia).
+        assert (Hp: (ballot_total pr / (1 + 1) + 1) * S <= first_prefs pr m * S) by (apply Z.mul_le_mono_nonneg_r; lia).
+        lia.
+    - eapply t_seq with (M := SatE A m); [cbn [rule_cmd]; apply (mpls_one_seat A S ZL cfg Hex m (S * ballot_total pr) Hseat)|].
+      + rewrite Rq. assert (0 <= ballot_total pr / (1 + 1)) by (apply Z.div_pos; lia). nia.
       + apply t_do. intros s0 Hs c Hc Em. rewrite (Status.cands_log A cfg) in Hc. exact (Hs c Hc Em). }
   specialize (Ht fuel _ s k eq_refl He). destruct k; try contradiction. exact Ht.
 Qed.
